@@ -211,11 +211,25 @@ FAULTS = [
     ("malformed-directive", "d8-two-values", "#d8 1 2"),
     ("malformed-directive", "unknown-directive", "#bogus 1"),
     ("malformed-directive", "res-negative", "#res -1"),
+    # a directive without its operand, where the next thing in the file is another directive or the end
+    # of the file (so that no operand can follow on a later line): see NEEDS_DIRECTIVE_NEXT
+    ("malformed-directive", "res-no-operand", "#res"),
+    ("malformed-directive", "align-no-operand", "#align"),
+    ("malformed-directive", "d8-no-operand", "#d8"),
     # (a directive with its value missing is NOT a single-line fault: customasm accepts the
     #  value on the following line, so `#d8` + newline + `ld 5` is parsed as `#d8 ld` and the
     #  first error legitimately sits on the next line; such faults are not injected)
 ]
+NEEDS_DIRECTIVE_NEXT = {"res-no-operand", "align-no-operand", "d8-no-operand"}
 DECORATIONS = ["ascii", "before", "on", "after"]
+
+
+def directive_or_end_follows(items, pos):
+    for it in items[pos:]:
+        if it.strip() == "":
+            continue
+        return it.startswith("#") and not it.startswith("#ruledef")
+    return True
 
 
 def gen_program(rng, k):
@@ -323,6 +337,8 @@ def family_b_cases(ck, quick):
             lo = 1 if f == "main.asm" else 0
             for pos in range(lo, len(its) + 1):
                 for fi, (kind, variant, ftext) in enumerate(FAULTS):
+                    if variant in NEEDS_DIRECTIVE_NEXT and not directive_or_end_follows(its, pos):
+                        continue
                     for di, deco in enumerate(DECORATIONS):
                         mb = MB[(pi + pos + fi + di) % len(MB)]
                         texts, line = render(prog, deco, mb, (f, pos, ftext))
